@@ -128,7 +128,7 @@ def generate(sess):
             run_entry(sess, suite, "rand_new", lambda tp: "rand_new %s vk=%s comms=%s tape=%s" % (suite, vk, cm, tp),
                       1, [fld.n], lambda r: [r["seed"]])
         # batch verification: one blinder per queued item
-        for k in ([1, 3, 8] if thorough else [3]):
+        for k in ([1, 2, 3, 8] if thorough else [1, 3]):   # a single item too: one blinder per item, whatever the batch size
             items = c19_items(sess, suite, k, max(1, min(3, k)))
             tb = rng.randbytes(d * k + 64)
             req = "batch %s items=%s tape=%s" % (suite, c19_item_str(items), tb.hex())
